@@ -53,7 +53,7 @@ UNIT = dict(
         dict(file=X, impl='XrefSection', name='write_xref_section', props=['C01', 'C03', 'C19']),
         dict(file=W, impl='Writer', name='need_separator', rules=dict(no_sink=True)),
         dict(file=W, impl='Writer', name='need_end_separator', rules=dict(no_sink=True)),
-        dict(file=W, impl='Writer', name='write_object', rules=dict(subst=ITOA)),
+        dict(file=W, impl='Writer', name='write_object', rules=dict(subst=ITOA + [dict(rule='R5', lit='value.fract() == 0.0 && value.abs() >= 9.223372e18', to='f32_integral_beyond_i64(*value)', count=1, note='f32 test replaced by an uninterpreted predicate')])),
         dict(file=W, impl='Writer', name='write_name'),
         dict(file=W, impl='Writer', name='write_string'),
         dict(file=W, impl='Writer', name='write_array'),
